@@ -17,6 +17,11 @@ ANCHORS = {
 }
 
 CORPUS = [
+    # D34 witness (fixed): the same call on an executor without and with the dependency resolver, over one directory
+    {"workers": 1, "resolver": False, "block": True, "delay": 0.0, "seed": 4, "perturb": {},
+     "sessions": [[{"fn": 0, "arg": 1, "kw": None, "session_resolver": False}], [{"fn": 0, "arg": 1, "kw": None, "session_resolver": True}],
+                  [{"fn": 0, "arg": 1, "kw": None, "session_resolver": False}, {"fn": 1, "arg": 2, "kw": 3, "session_resolver": False}],
+                  [{"fn": 1, "arg": 2, "kw": 3, "session_resolver": True}]], "timeout": 60, "_processes": 1},
     # the same calls in three sessions, the last one in a new interpreter: nothing may execute twice
     {"workers": 2, "resolver": False, "block": True, "delay": 0.3, "seed": 5, "perturb": {},
      "sessions": [[{"fn": 0, "arg": 1, "kw": None}, {"fn": 1, "arg": 2, "kw": 1}], [{"fn": 1, "arg": 2, "kw": 1}, {"fn": 0, "arg": 1, "kw": None}],
@@ -63,6 +68,28 @@ def body(ctx: Ctx):
             diffs.append((s, j))
         else:
             validated += 1
+    mbad = []
+    if not replay:
+        # ---- mutable results: what the caller does to a result it received must not reach later submissions
+        import os
+
+        from .common import InfraError, finish_json_child, start_json_child
+
+        o = finish_json_child(start_json_child(["vh.cache_mut_runner"]), 400)
+        if o is None:
+            raise InfraError("mutable-result runner produced no output")
+        if not os.path.realpath(o["pin"]).startswith(os.path.realpath(os.environ.get("VERIF_REPO", "/repo")) + os.sep):
+            raise InfraError("mutable-result runner imported executorlib from " + o["pin"])
+        for c in o["cases"]:
+            ctx.case({"mutable_result": [c["mode"], c["submission"]]})
+            ctx.count("mutable_result_cases")
+        mbad = [c for c in o["cases"] if not c["ok"]]
+        ctx.oblige("a call with a mutable result submitted six times in one interpreter (results edited in place by the caller in between) "
+                   "returns the function's value every time and executes once", not mbad, "%d cases" % len(o["cases"]))
+        if mbad:
+            ctx.violation({"kind": "cache_result_shared_with_caller", "failing_input": True},
+                          {"what": "a resubmitted call did not return a result equal to the function's value (or was executed again): results handed "
+                                   "to the caller are shared between submissions, or the entry was recomputed", "cases": mbad[:4]})
     if not replay and hits < 20:
         from .common import InfraError
 
